@@ -133,7 +133,13 @@ Definition mangle_content_type (media boundary : bytes) : bytes :=
   else mt_multipart ++ txt_boundary ++ boundary.
 
 (* ---------- body selection ---------- *)
-Inductive payload := PNil | PValue | PReader (content : bytes) | PReadCloser (content : bytes).
+(* PBuffer: an io.Reader payload whose dynamic type is *bytes.Buffer, a buffer of the caller. It is the one
+   dynamic type of a reader payload that buildHTTP itself tells apart (the type test of the getBody
+   override, request.go:274). Every other reader type: bytes.Reader, strings.Reader, os.File, a type with
+   WriteTo, and so on, is a PReader or, when it also has Close, a PReadCloser: the harness varies the dynamic
+   type, the model says it makes no difference. *)
+Inductive payload := PNil | PValue | PReader (content : bytes) | PReadCloser (content : bytes)
+                   | PBuffer (content : bytes).
 
 (* the producer registered for the media type, applied to the payload value:
    None = no producer registered, Some None = Produce returned an error, Some (Some b) = it wrote b *)
@@ -150,8 +156,9 @@ Record body_in := mkbin {
 }.
 
 Inductive doc := DNone | DBytes (b : bytes) | DMultipart (parts : list part).
-(* which Go value the body variable holds: nil, r.buf, or a stream (pipe reader / reader payload) *)
-Inductive bsrc := SNil | SBuf | SStream.
+(* which Go value the body variable holds: nil, r.buf, a stream (pipe reader / reader payload), or a
+   *bytes.Buffer that is not r.buf (the caller's own buffer given as reader payload) *)
+Inductive bsrc := SNil | SBuf | SStream | SOtherBuf.
 Inductive berr := ENoProducer | EProduce.
 Inductive outcome :=
 | OPanic
@@ -181,6 +188,7 @@ Definition build_body (i : body_in) : outcome :=
     | PNil => OOk (bi_preset_ct i) SNil DNone
     | PReadCloser c => OOk (Some (bi_media i)) SStream (DBytes c)
     | PReader c => OOk (Some (bi_media i)) SStream (DBytes c)
+    | PBuffer c => OOk (Some (bi_media i)) SOtherBuf (DBytes c)
     | PValue =>
       match bi_producer i with
       | None => OErr ENoProducer          (* after the repair of F-C11-2; before: nil dereference *)
@@ -201,12 +209,24 @@ Definition producer_gate (media : bytes) (registered : bool) : bool :=
 Record gbst := mkgb { g_copied : bool; g_buf : bytes; g_stream : bytes; g_body : bsrc; g_override : bool;
                       g_closed : nat }.
 
-Definition gb_init (src : bsrc) (content : bytes) : gbst :=
+(* request.go:274, the test that decides whether r.getBody is replaced by the copy-on-demand closure:
+     buf, ok := [body asserted to be a bytes.Buffer pointer]; body != nil && (!ok || buf != r.buf)
+   i.e. for every body except nil and the request's own buffer. *)
+Definition src_nonnil (s : bsrc) : bool := match s with SNil => false | _ => true end.
+Definition src_is_buffer (s : bsrc) : bool := match s with SBuf | SOtherBuf => true | _ => false end.
+Definition src_is_rbuf (s : bsrc) : bool := match s with SBuf => true | _ => false end.
+Definition override_installed (s : bsrc) : bool :=
+  src_nonnil s && (negb (src_is_buffer s) || negb (src_is_rbuf s)).
+
+(* the machine is parametric in the installation test, so that the test itself can be shown necessary *)
+Definition gb_init_with (inst : bsrc -> bool) (src : bsrc) (content : bytes) : gbst :=
   match src with
-  | SNil => mkgb false [] [] SNil false 0
-  | SBuf => mkgb false content [] SBuf false 0
-  | SStream => mkgb false [] content SStream true 0
+  | SNil => mkgb false [] [] SNil (inst SNil) 0
+  | SBuf => mkgb false content [] SBuf (inst SBuf) 0
+  | SStream => mkgb false [] content SStream (inst SStream) 0
+  | SOtherBuf => mkgb false [] content SOtherBuf (inst SOtherBuf) 0
   end.
+Definition gb_init : bsrc -> bytes -> gbst := gb_init_with override_installed.
 
 Definition get_body (st : gbst) : bytes * gbst :=
   if negb (g_override st) then (g_buf st, st)
@@ -228,8 +248,13 @@ Definition sent_bytes (st : gbst) : bytes :=
   | SNil => []
   | SBuf => g_buf st
   | SStream => g_stream st
+  | SOtherBuf => g_stream st
   end.
 
 (* an auth writer asking k times: the answers it got and the bytes then sent *)
-Definition auth_run (k : nat) (src : bsrc) (content : bytes) : list bytes * bytes :=
-  let '(answers, st) := get_body_n k (gb_init src content) in (answers, sent_bytes st).
+Definition auth_run_with (inst : bsrc -> bool) (k : nat) (src : bsrc) (content : bytes) : list bytes * bytes :=
+  let '(answers, st) := get_body_n k (gb_init_with inst src content) in (answers, sent_bytes st).
+Definition auth_run : nat -> bsrc -> bytes -> list bytes * bytes := auth_run_with override_installed.
+
+(* a wrong installation test: no closure for any *bytes.Buffer, the caller's included *)
+Definition inst_not_any_buffer (s : bsrc) : bool := src_nonnil s && negb (src_is_buffer s).
